@@ -237,7 +237,9 @@ impl<'a> Planner<'a> {
 
                 match join.join_type {
                     JoinType::Semi => {
-                        if self.has_equi_join_keys(join.condition) {
+                        // the hash semi join matches on the key pairs only: any other conjunct
+                        // of the subquery's condition needs the nested loop
+                        if self.is_pure_equi_join(join) {
                             let equi_keys = self.extract_equi_join_keys_for_join(
                                 join.condition,
                                 join.left,
@@ -265,7 +267,7 @@ impl<'a> Planner<'a> {
                         }
                     }
                     JoinType::Anti => {
-                        if self.has_equi_join_keys(join.condition) {
+                        if self.is_pure_equi_join(join) {
                             let equi_keys = self.extract_equi_join_keys_for_join(
                                 join.condition,
                                 join.left,
